@@ -12,10 +12,14 @@ import (
 	"time"
 
 	"github.com/fiorix/go-diameter/v4/diam"
+	"github.com/fiorix/go-diameter/v4/diam/datatype"
+	"github.com/fiorix/go-diameter/v4/diam/sm"
 
 	"verifharness/ev"
 	"verifharness/lib"
 	"verifharness/memnet"
+	"verifharness/peer"
+	"verifharness/refcodec"
 	"verifharness/sctpmem"
 )
 
@@ -444,6 +448,122 @@ func runC08SCTP(c *ev.Case, ctx *lib.Ctx, sc c08Scenario, h diam.Handler, mons [
 	c.Event("sctp_scenarios", 1)
 }
 
+// runC08SlowHandlers: connections accepted by a Server with a ReadTimeout; every handler runs
+// (virtual time) three times as long as that timeout, and the peer sends its next message half a
+// timeout after the handler has returned - it is never silent for a whole ReadTimeout while the
+// server waits for it.  Every message must be dispatched, in order, and no connection dropped.
+func runC08SlowHandlers(c *ev.Case, ctx *lib.Ctx, K, n int, rt time.Duration, notify bool) {
+	sig := func(op string) ev.Sig { return ev.Sig{"op": op, "suite": "slow-handlers-read-timeout"} }
+	mons := make([]*connMonitor, K)
+	conns := make([]*memnet.Conn, K)
+	byAddr := map[string]int{}
+	hf := diam.HandlerFunc(func(dc diam.Conn, m *diam.Message) {
+		i := byAddr[dc.RemoteAddr().String()]
+		mons[i].enter(m.Header.HopByHopID)
+		if notify && m.Header.HopByHopID == 1 {
+			_ = dc.(diam.CloseNotifier).CloseNotify()
+		}
+		time.Sleep(3 * rt)
+		mons[i].leave()
+	})
+	srv := &diam.Server{Handler: hf, Dict: ctx.Parser, ReadTimeout: rt}
+	ln := memnet.NewListener()
+	go srv.Serve(ln)
+	for i := range conns {
+		conns[i] = memnet.NewConn()
+		conns[i].Remote = memnet.Addr{Net: "tcp", Str: fmt.Sprintf("10.0.0.%d:1000", i+1)}
+		byAddr[conns[i].Remote.String()] = i
+		mons[i] = &connMonitor{}
+		ln.Offer(conns[i])
+	}
+	defer func() {
+		for i := range conns {
+			conns[i].FeedEOF()
+		}
+		ln.Close()
+		time.Sleep(2 * rt)
+		synctest.Wait()
+	}()
+	for s := 1; s <= n; s++ {
+		for i := range conns {
+			conns[i].Feed(c08Msg(i, uint32(s), c08Body(i, s), false))
+		}
+		time.Sleep(3*rt + rt/2)
+		synctest.Wait()
+		for i := range conns {
+			mons[i].mu.Lock()
+			p, seen := mons[i].problem, len(mons[i].seen)
+			mons[i].mu.Unlock()
+			if p != "" {
+				c.Fail(sig("one-at-a-time-in-order"), nil, nil, "connection %d: %s", i, p)
+				return
+			}
+			if seen != s || conns[i].CloseCount() != 0 {
+				c.Fail(sig("lost-after-slow-handler"), nil, nil, "ReadTimeout %v, handlers take %v, the peer sends message k+1 %v after the handler of message k returned: connection %d has had %d of %d messages dispatched and was closed %d time(s)",
+					rt, 3*rt, rt/2, i, seen, s, conns[i].CloseCount())
+				return
+			}
+		}
+	}
+	c.Event("handler_invocations", K*n)
+	c.Event("slow_handler_scenarios", 1)
+}
+
+// runC08ManyHandshakes: P peers complete the capabilities exchange on one state machine whose
+// application never reads HandshakeNotify; each then sends a request.  Every request must be
+// dispatched: whether a connection is served does not depend on how many others came before.
+func runC08ManyHandshakes(c *ev.Case, ctx *lib.Ctx, P int, subscribed bool) {
+	sig := func(op string) ev.Sig { return ev.Sig{"op": op, "suite": "many-handshakes"} }
+	machine := sm.New(&sm.Settings{OriginHost: "srv.local", OriginRealm: "realm.local", VendorID: 13, ProductName: "verif",
+		HostIPAddresses: []datatype.Address{datatype.Address([]byte{192, 0, 2, 1})}})
+	if subscribed {
+		_ = machine.HandshakeNotify()
+	}
+	var mu sync.Mutex
+	seen := map[uint32]int{}
+	machine.HandleFunc("ALL", func(_ diam.Conn, m *diam.Message) {
+		mu.Lock()
+		seen[m.Header.HopByHopID]++
+		mu.Unlock()
+	})
+	srv := &diam.Server{Handler: machine, Dict: ctx.Parser}
+	ln := memnet.NewListener()
+	go srv.Serve(ln)
+	conns := make([]*memnet.Conn, P)
+	defer func() {
+		for _, mc := range conns {
+			if mc != nil {
+				mc.FeedEOF()
+			}
+		}
+		ln.Close()
+		synctest.Wait()
+	}()
+	for i := range conns {
+		conns[i] = memnet.NewConn()
+		conns[i].Remote = memnet.Addr{Net: "tcp", Str: fmt.Sprintf("10.1.%d.%d:1000", i/250, i%250+1)}
+		ln.Offer(conns[i])
+		conns[i].Feed(peer.StdCER(uint32(i+1), uint32(i+1), 4))
+		conns[i].Feed(peer.Msg(0xC0, 272, 4, uint32(100000+i), 1, peer.Str(peer.SessionID, refcodec.UTF8String, "s;1")))
+		if i%7 == 0 {
+			synctest.Wait()
+		}
+	}
+	synctest.Wait()
+	for i := range conns {
+		mu.Lock()
+		n := seen[uint32(100000+i)]
+		mu.Unlock()
+		msgs, _ := peer.SplitMessages(conns[i].Written())
+		if n != 1 || len(msgs) != 1 {
+			c.Fail(sig("other-connection-delayed"), nil, nil, "%d peers completed the capabilities exchange on one state machine (HandshakeNotify never read): the request of peer %d was dispatched %d times, %d messages were written to it", P, i+1, n, len(msgs))
+			return
+		}
+	}
+	c.Event("handler_invocations", P)
+	c.Event("many_handshake_scenarios", 1)
+}
+
 // c08Short: the scenario without the per-connection message counts (long for many connections)
 func c08Short(sc c08Scenario) string {
 	n := sc.perConn
@@ -464,6 +584,25 @@ func TestC08(t *testing.T) {
 	if rec.Race() {
 		n = rec.N(500, 60000)
 	}
+	def := defCtx(t)
+	rec.Suite("slow-handlers-read-timeout", 12, func(c *ev.Case) {
+		K, n := 1+c.I%3, 2+(c.I/3)%2
+		rt := []time.Duration{100 * time.Millisecond, 2 * time.Second}[(c.I/6)%2]
+		notify := false // with CloseNotify armed: see C14, suite closenotify-with-read-timeout
+		c.Class("slow-handlers/K=%d/messages=%d/read-timeout=%v/close-notify=%v", K, n, rt, notify)
+		leak := runBubbleWD(t, rec, c, 60*time.Second, func() { runC08SlowHandlers(c, ctx, K, n, rt, notify) })
+		if leak != "" && !c.Failed() {
+			c.Fail(ev.Sig{"op": "bubble-leak", "suite": "slow-handlers-read-timeout"}, nil, nil, "goroutines left blocked after the scenario ended: %s", leak)
+		}
+	})
+	rec.Suite("many-handshakes", 8, func(c *ev.Case) {
+		P := []int{5, 33, 40, 130}[c.I%4]
+		c.Class("many-handshakes/peers=%d/subscribed=%v", P, c.I/4 == 0)
+		leak := runBubbleWD(t, rec, c, 60*time.Second, func() { runC08ManyHandshakes(c, def, P, c.I/4 == 0) })
+		if leak != "" && !c.Failed() {
+			c.Fail(ev.Sig{"op": "bubble-leak", "suite": "many-handshakes"}, nil, nil, "goroutines left blocked after the scenario ended: %s", leak)
+		}
+	})
 	rec.Suite("scenarios", n, func(c *ev.Case) {
 		r := c.R
 		sc := c08Scenario{K: []int{1, 3, 5}[r.IntN(3)], dialled: r.IntN(2) == 0, pattern: r.IntN(3), handler: r.IntN(3), mux: r.IntN(2) == 0}
